@@ -23,6 +23,7 @@ RULE = (
     "save the message is still acked and every later message processed. "
     "Non-trivial: an outcome other than plain return, or a backend failure followed by >=1 more message."
     " Part 'sync_pool': sync task functions executed through a REAL ThreadPoolExecutor on a real event loop (1-4 messages, outcomes return / ValueError / KeyError / custom Exception / StopIteration (bare, with a value, from next() on an empty iterator) / StopAsyncIteration / KeyboardInterrupt / SystemExit / custom BaseException / RecursionError / TimeoutError / no-result); completion is awaited with barrier jobs posted to the single pool thread, never with a wall-clock limit; oracle: the execution completes, exactly one result with is_err and the raised class (a StopIteration may arrive as RuntimeError caused by it, as Python itself does for coroutines)."
+    " Task outcomes include raising taskiq's own TaskRejectedError (what Context.reject() raises): an error result must be stored for it like for any exception other than NoResultError."
 )
 ASSUMPTIONS = ["part sync_pool uses a real event loop and a real ThreadPoolExecutor; the main part runs on the virtual-time loop with inline sync functions", "sync tasks run inline with zero virtual duration: 'timeout on a sync task' (documented as unreliable) is not asserted",
                "virtual-time loop"]
@@ -66,7 +67,7 @@ def scenario(big: bool = False) -> Any:
 
     base = cm.message(kinds=("async", "async", "async", "sync", "swapped"),
                       outs=("ret", "ret", "ret", "ValueError", "MyErr", "KeyboardInterrupt", "SystemExit", "CancelledError",
-                            "MyBase", "NoResult", "EmptyBatchError", "BadStrError"),
+                            "MyBase", "NoResult", "EmptyBatchError", "BadStrError", "TaskRejectedError"),
                       timeouts=(None, None, 0.3, 0.35, 1, "0.3", "1", 3, "3.0", 1.5, "2.5"), acks=("sync",), durs=cm.DURS + [2.0])
     msg = st.tuples(base, st.fixed_dictionaries({
         "rvkind": st.sampled_from(["json", "json", "obj", "default"]),
